@@ -77,10 +77,22 @@ class GeneratorDriver:
                 w2 = self.gen.get_weights(p)
                 q = Particle(p.id, p.vertex, p.direction, p.energy, interaction_model=type(p.interaction), interaction_type=p.interaction.kind)
                 w3 = self.gen.get_weights(q)
+                # both weights as the property writes them, with the same (total) interaction length in each:
+                #   survival = exp(-column depth / L),  interaction = chord / L_ice * exp(-travelled / L_ice)
+                lam = float(q.interaction.total_interaction_length)
+                col = float(self.gen.earth_model.slant_depth(q.vertex, -np.asarray(q.direction)))
+                ent, ext = self.gen.get_exit_points(q)
+                chord = float(np.linalg.norm(np.asarray(ext, dtype=float) - np.asarray(ent, dtype=float)))
+                trav = float(np.linalg.norm(np.asarray(q.vertex, dtype=float) - np.asarray(ent, dtype=float)))
+                lam_ice = lam / 0.92 / 100
+                want_w = (float(np.exp(-col / lam)), chord / lam_ice * float(np.exp(-trav / lam_ice)))
             finally:
                 self.gen.earth_model = real_earth
             if not np.allclose(w2, w3, rtol=1e-9, atol=0):
                 raise Divergence('get_weights after changing the particle energy vs fresh particle', [float(x) for x in w3], [float(x) for x in w2])
+            if not np.allclose(w3, want_w, rtol=1e-9, atol=0):
+                raise Divergence('get_weights (survival, interaction) vs exp(-column / L) and chord / L_ice * exp(-travelled / L_ice) with the '
+                                 'total interaction length', list(want_w), [float(x) for x in w3])
             want_sw = 1.0 if last['shadow'] else (1.0 if last['survives'] else 0.0)
             if not (abs(p.survival_weight - want_sw) <= 1e-12):
                 raise Divergence('survival_weight of the returned particle', want_sw, p.survival_weight)
